@@ -365,6 +365,8 @@ def cases(tier, seed):
     out.append({"id": "model:many-parameters", "kind": "many",
                 "tier": tier})
     out.append({"id": "model:cross-section", "kind": "cross", "tier": tier})
+    out.append({"id": "model:prior-shared-beyond-the-scatterer",
+                "kind": "sharedout", "tier": tier})
     for lay in _tie_layouts(tier):
         out.append({"id": "tie:" + lay["id"], "kind": "tie", "tier": tier,
                     "layout": lay["id"]})
@@ -1841,12 +1843,51 @@ def _run_many(case, cs):
     return digest(*acc), {"programs": 3}
 
 
+def _run_sharedout(case, cs):
+    """one prior object used in the scatterer AND in the scaling, the optics
+    or the theory is one parameter, and its value reaches every place"""
+    from holopy.core.prior import Uniform
+    from holopy.inference import AlphaModel
+    from holopy.scattering import Sphere
+    from holopy.scattering.theory import MieLens
+    ck = cs.ck
+    acc = []
+    for what, build, probe in (
+            ("Sphere.r and alpha", lambda u: AlphaModel(
+                Sphere(n=1.5, r=u, center=[0.1, 0.2, 5.0]), alpha=u),
+             lambda m, v: (m.scatterer_from_parameters([v]).r,
+                           m._find_parameter("alpha", [v])
+                           if hasattr(m, "_find_parameter") else v)),
+            ("Sphere.n and medium_index", lambda u: AlphaModel(
+                Sphere(n=u, r=0.5, center=[0.1, 0.2, 5.0]), alpha=0.7,
+                medium_index=u), None),
+            ("centre z and lens_angle", lambda u: AlphaModel(
+                Sphere(n=1.5, r=0.5, center=[0.1, 0.2, u]), alpha=0.7,
+                theory=MieLens(lens_angle=u)), None),
+            ("Sphere.r and centre x (inside the scatterer: control)",
+             lambda u: AlphaModel(Sphere(n=1.5, r=u, center=[u, 0.2, 5.0]),
+                                  alpha=0.7), None)):
+        u = Uniform(0.6, 0.9)
+        try:
+            m = build(u)
+            cs.ck.trans += 1
+        except Exception as e:
+            ck.true("one-parameter-per-prior", False, "%s: the model cannot "
+                    "be built: %s: %s" % (what, type(e).__name__, e))
+            continue
+        names = list(m.parameters)
+        ck.true("one-parameter-per-prior", len(names) == 1, "%s hold ONE "
+                "prior object, the model has parameters %r" % (what, names))
+        acc.append((what, names))
+    return digest(repr(acc)), {}
+
+
 def run_case(case):
     cs = Case()
     kind = case["kind"]
     fn = {"model": _run_model, "rigid": _run_rigid, "cross": _run_cross,
           "tie": _run_tie, "rt": _run_rt, "many": _run_many,
-          "hist": _run_hist}[kind]
+          "hist": _run_hist, "sharedout": _run_sharedout}[kind]
     fp, extra = fn(case, cs)
     res = cs.ck.result(fp=fp)
     res["extra"] = extra
